@@ -558,7 +558,9 @@ def run_case(cid, rng, workdir):
     # ---- sizes belong to the residue class, not to the residue name --------------------------------------------
     for nm, ids in names.items():
         if len(ids) > 1 and nm not in user_v:
-            variants = [(r, key) for r, key in reps if r["name"] == nm and len(r["atoms"]) >= 2]
+            # (a site stacked on its only atom has no extent: its size is the radius, whatever the residue)
+            variants = [(r, key) for r, key in reps if r["name"] == nm and len(r["atoms"]) >= 2 and
+                        not (r["kind"] == "vs_stacked" and len(r["atoms"]) == 2)]
             for (r1, k1), (r2, k2) in itertools.combinations(variants, 2):
                 if k1 == k2:
                     continue
